@@ -228,7 +228,8 @@ func (handler *Handler) loadByteArray(source []byte) (net1 *dhcpSubnet, net2 *dh
 
 			// if mac is captured, validate the IP is in the net2 subnet
 			if handler.session.IsCaptured(v.Addr.MAC) {
-				if net2.LAN.Contains(v.Addr.IP) {
+				// only a host address of the netfilter subnet can be a lease of that subnet
+				if ip := v.Addr.IP; net2.LAN.Contains(ip) && ip != net2.LAN.Addr() && ip != net2.broadcast && ip != net2.DefaultGW {
 					v.subnet = net2
 				}
 			}
